@@ -38,6 +38,7 @@ type c07Params struct {
 	Conns  [][][]string `json:"conns"`
 	After  map[int]int  `json:"after,omitempty"` // conn -> conn whose first reply releases it
 	Model  map[string][][]string `json:"model,omitempty"` // "conn.cmd" -> model commands (scripts)
+	NonAtomic map[string]bool    `json:"nonatomic,omitempty"` // "conn.cmd" -> each model command is its own step (EVALNA)
 	Live   bool         `json:"live,omitempty"`  // a live fence connection on key k participates
 	Expire bool         `json:"expire,omitempty"`
 	Spin   bool         `json:"spinlock,omitempty"`
@@ -53,10 +54,13 @@ func (p c07Params) prop() string {
 
 type c07Op struct {
 	conn, idx int
+	sub       int // position inside a non-atomic script
 	args      []string
 	model     [][]string
 	reply     rv
 	done      bool
+	anyReply  bool // no reply is observed for this step (inner call of a non-atomic script)
+	silent    bool // not a wire command (does not consume a reply)
 }
 
 func (o *c07Op) apply(st *mState) string {
@@ -123,7 +127,20 @@ func c07Run(job *Job, p c07Params, prefix []int) (out schedOut) {
 		for i := range clis {
 			clis[i] = x.Dial(in.Addr)
 			for k, cmd := range p.Conns[i] {
-				o := &c07Op{conn: i, idx: k, args: cmd, model: p.Model[fmt.Sprintf("%d.%d", i, k)]}
+				key := fmt.Sprintf("%d.%d", i, k)
+				if p.NonAtomic[key] {
+					// every inner call is a step of its own; the wire reply belongs to the last
+					inner := p.Model[key]
+					for j, c := range inner {
+						o := &c07Op{conn: i, idx: k, sub: j, args: cmd, model: [][]string{c}, anyReply: true, silent: j < len(inner)-1, done: j < len(inner)-1}
+						ops = append(ops, o)
+						if !o.silent {
+							perConn[i] = append(perConn[i], o)
+						}
+					}
+					continue
+				}
+				o := &c07Op{conn: i, idx: k, args: cmd, model: p.Model[key]}
 				ops = append(ops, o)
 				perConn[i] = append(perConn[i], o)
 			}
@@ -231,7 +248,10 @@ func c07Run(job *Job, p c07Params, prefix []int) (out schedOut) {
 			return
 		}
 		if !done {
-			out.Err = "replies missing: " + vsched.Dump()
+			// a command that is never answered (server-side deadlock) violates the property
+			out.VSig = p.prop() + "/no-reply:" + p.Name
+			out.VDetail = "not every command was answered within 30 virtual seconds; threads: " + vsched.Dump()
+			out.Obs = "NO-REPLY"
 			return
 		}
 		final, err := serverCanon(c0)
@@ -266,10 +286,39 @@ func c07Run(job *Job, p c07Params, prefix []int) (out schedOut) {
 			replies = append(replies, fmt.Sprintf("%d.%d=%s@%d", o.conn, o.idx, o.reply, pos[len(replies)]))
 		}
 		out.Obs = strings.Join(replies, " ") + " | " + final
-		if lockViol != "" && p.prop() == "C07" {
+		if lockViol != "" && (p.prop() == "C07" || p.prop() == "C18") {
 			out.VSig = p.prop() + "/lock-discipline:" + p.Name
 			out.VDetail = lockViol
 			return
+		}
+		// the log entries of one atomic step (script, multi-object command) are contiguous
+		for i, o := range ops {
+			if o.anyReply || len(o.logKeys()) < 2 {
+				continue
+			}
+			lo, hi := -1, -1
+			for _, k := range o.logKeys() {
+				if j := bytes.Index(img, k); j >= 0 {
+					if lo < 0 || j < lo {
+						lo = j
+					}
+					if j > hi {
+						hi = j
+					}
+				}
+			}
+			for j2, o2 := range ops {
+				if j2 == i || (o2.conn == o.conn && o2.idx == o.idx) {
+					continue
+				}
+				for _, k := range o2.logKeys() {
+					if q := bytes.Index(img, k); q > lo && q < hi {
+						out.VSig = p.prop() + "/atomic-step-interleaved-in-log:" + p.Name
+						out.VDetail = fmt.Sprintf("a log entry of op %d.%d lies between the entries of the atomic step %d.%d (positions %d < %d < %d) | %s", o2.conn, o2.idx, o.conn, o.idx, lo, q, hi, out.Obs)
+						return
+					}
+				}
+			}
 		}
 		// brute-force linearizability (with the sweeper as an extra actor that may
 		// delete an object carrying a deadline at any point of the order)
@@ -279,7 +328,12 @@ func c07Run(job *Job, p c07Params, prefix []int) (out schedOut) {
 			out.VDetail = why + " | observed: " + out.Obs
 		}
 	})
-	if x.Err != "" {
+	if strings.HasPrefix(x.Err, "deadlock") && out.VSig == "" {
+		out.VSig = p.prop() + "/deadlock:" + p.Name
+		out.VDetail = x.Err
+		out.Obs = "DEADLOCK"
+		out.Trace = append([]vsched.ChoicePoint(nil), vsched.Trace...)
+	} else if x.Err != "" {
 		out.Err = x.Err
 	}
 	return out
@@ -337,7 +391,7 @@ func c07Linearize(base *mState, ops []*c07Op, after map[int]int, pos []int, fina
 					continue
 				}
 				// earlier command of the same connection must come first
-				if ops[j].conn == o.conn && ops[j].idx < o.idx {
+				if ops[j].conn == o.conn && (ops[j].idx < o.idx || ops[j].idx == o.idx && ops[j].sub < o.sub) {
 					ok = false
 				}
 				// the releasing connection's first command precedes every command of the released one
@@ -350,7 +404,7 @@ func c07Linearize(base *mState, ops []*c07Op, after map[int]int, pos []int, fina
 			}
 			st2 := st.clone()
 			exp := o.apply(st2)
-			if !mMatch(exp, o.reply) {
+			if !o.anyReply && !mMatch(exp, o.reply) {
 				continue
 			}
 			lp := lastPos
